@@ -6,7 +6,7 @@ import json, os, re, subprocess, sys
 V = '/verif'
 only = sys.argv[1:]
 out = {}
-mp = os.path.join(V, 'seeded', 'MATRIX.json')
+mp = os.environ.get('MATRIX_OUT') or os.path.join(V, 'seeded', 'MATRIX.json')
 if os.path.exists(mp):
     out = json.load(open(mp))
 WT = os.environ.get('MATRIX_WT', '/tmp/mxwt')
